@@ -239,6 +239,8 @@ class QRef:
         measurement_key_map, repetition ids and parent path -- never through the operation's own
         with_qubits / with_key machinery, which is code under test."""
         sp = self.space
+        if isinstance(op, cirq.TaggedOperation) and isinstance(op.untagged, cirq.ClassicallyControlledOperation):
+            op = op.untagged      # tags (e.g. a noise model's PHYSICAL_GATE_TAG) carry no semantics
         # classical control: all conditions must hold
         if isinstance(op, cirq.ClassicallyControlledOperation):
             if key_of is not None:
